@@ -47,6 +47,7 @@ class RuleResult:
         self.floor = floor
         self.instances = []
         self.info = {}
+        self.anchors = []   # substrings; each must occur in at least one instance key
 
     def add(self, key, loc, ok, detail="", nontrivial=True, path=None):
         self.instances.append(Instance(key, loc, ok, detail, nontrivial, path))
@@ -144,6 +145,9 @@ def run_property(pid, tier="quick", replay=None, root=None, write_evidence=True)
             if len(r.instances) < r.floor:
                 raise AnalysisBroken("rule %s matched %d instances, below the confirmed floor %d" %
                                      (r.rule, len(r.instances), r.floor))
+            for a in r.anchors:
+                if not any(a in i.key for i in r.instances):
+                    raise AnalysisBroken("rule %s: confirmed anchor instance %r no longer matched" % (r.rule, a))
     except AnalysisBroken as e:
         print("ANALYSIS-BROKEN property=%s: %s" % (pid, e))
         return 2
